@@ -5,5 +5,6 @@ package util
 // Contracts for the snesvc verifier (/verif). Comment-only; compiled only with -tags verif.
 
 //@ func BankToLinear
+//@   params addr
 //@   property C05
 //@   ensures ret1 == ((addr >> 16) << 15) + (addr & 0x7FFF)
